@@ -68,7 +68,7 @@ overrun_encoder_cb(const void *data, size_t size, void *keyp) {
          * stop adding bytes to the buffer.
          */
         key->buffer_size = 0;
-    } else {
+    } else if(size) {
         memcpy((char *)key->buffer + key->computed_size, data, size);
     }
     key->computed_size += size;
@@ -105,7 +105,7 @@ dynamic_encoder_cb(const void *data, size_t size, void *keyp) {
                 return 0;
             }
         }
-        memcpy((char *)key->buffer + key->computed_size, data, size);
+        if(size) memcpy((char *)key->buffer + key->computed_size, data, size);
     }
 
     key->computed_size += size;
